@@ -35,7 +35,7 @@ theorem sim_observed {c : Conn} {s : Spec} (h : Sim c s) (r : Res) : Observed (r
 /-- a freshly connected Connection on an empty database simulates the initial spec state -/
 theorem init_sim (rs : ResetStyle) : Sim (Conn.connect (DB.init rs)) Spec.init := by
   refine
-    { dbapi := rfl, reconn := rfl, nofault := rfl, noctx := rfl, noauto := rfl,
+    { dbapi := rfl, reconn := rfl, nofault := rfl, nolistener := rfl, noctx := rfl, noauto := rfl,
       kindsLen := rfl, kindsAt := (fun _ hx => by simp [Conn.connect] at hx),
       committed := rfl, working := rfl, root := rfl,
       rootOk := (fun _ ht => by simp [Spec.init] at ht), rootNone := fun _ => rfl,
